@@ -110,7 +110,7 @@ where
                 out.day = Some(v as u32);
                 Ok(())
             }),
-            "min" => numeric_match(tok.as_ref(), "min", 2, 0..=60).and_then(|v| {
+            "min" => numeric_match(tok.as_ref(), "min", 2, 0..=59).and_then(|v| {
                 out.minute = Some(v as u32);
                 Ok(())
             }),
